@@ -1,7 +1,7 @@
 From Coq Require Import Extraction ExtrOcamlBasic ZArith NArith List.
 From C15 Require Import Model.
 Extraction "Model.ml" len wrap le_bytes le_val typed chunks encode encode_seq
-  fetch store rd_read rd_view rd_end get get_seq reader_of decode decode_seq get_into get_into_seq read_into default_value l_step l_read_view l_init l_heap l_wr l_views h_step h_init h_buf h_curs
+  fetch store rd_read rd_view rd_end get get_seq reader_of decode decode_seq get_into get_into_seq read_into default_value l_step l_read_view l_init l_heap l_wr l_views h_step h_init h_buf h_curs x_step x_init x_h x_msgs
   bw_write bw_put_seq wsc_write wsc_put_seq
   fbw_step fbw_available fbw_capacity fbw_view fbw_init fbw_write_chunks f_cap
   Z.of_nat Z.to_nat Z.of_N Z.to_N N.of_nat N.to_nat.
